@@ -908,10 +908,11 @@ fn run_dec_child(dec: &str, a: &[String], tmp: &Path) -> String {
 fn kebab(s: &str) -> String {
     let mut out = String::new();
     let mut dash = true;
+    let mut digit = false;
     for c in s.chars() {
-        if c.is_ascii_alphabetic() { out.push(c.to_ascii_lowercase()); dash = false; }
-        else if c.is_ascii_digit() { if !out.ends_with('n') || dash { out.push('n'); } dash = false; }
-        else if !dash { out.push('-'); dash = true; }
+        if c.is_ascii_alphabetic() { out.push(c.to_ascii_lowercase()); dash = false; digit = false; }
+        else if c.is_ascii_digit() { if !digit { out.push('n'); } dash = false; digit = true; }
+        else { if !dash { out.push('-'); dash = true; } digit = false; }
     }
     out.trim_matches('-').chars().take(90).collect()
 }
